@@ -1,1 +1,2 @@
 import PyhmsVerif.Props.C17
+import PyhmsVerif.Props.C16
